@@ -225,10 +225,6 @@ fn apply_delta(py: Python, py_src_buf: Py<PyAny>, py_delta: Py<PyAny>) -> PyResu
             out.extend_from_slice(&src_buf[cp_off..cp_off + cp_size]);
             outindex += cp_size;
         } else if cmd != 0 {
-            if (cmd as usize) > dest_size {
-                break;
-            }
-
             // Raise ApplyDeltaError if there are more bytes to copy than space
             if outindex + cmd as usize > dest_size {
                 return Err(ApplyDeltaError::new_err("Not enough space to copy"));
